@@ -33,6 +33,38 @@ def run_structure(prog, data, l, v, stub=None):
     return I, r
 
 
+def confirm_structure(native, v, l, data):
+    level = iso.LEVELS[l]
+    total = iso.total_codewords(v + 1)
+    ans = native.ask('structure %s %d %d' % (OV.hexs(data), l, v))
+    if ans.startswith('PANIC') or ans == 'ABORT':
+        return True, 'structure panics for V%02d-%s: %s' % (v + 1, level, ans[:80])
+    nat = list(bytes.fromhex(ans))
+    ref = iso.interleave(v + 1, level, data)
+    if nat[:total] != ref or any(nat[total:]):
+        idx = next((i for i in range(total) if nat[i] != ref[i]), total)
+        return True, 'interleaved codeword stream of V%02d-%s differs from the ISO block layout at codeword %d (got %s, expected %s); data %s...' % (
+            v + 1, level, idx, bytes(nat[idx:idx + 4]).hex(), bytes(ref[idx:idx + 4]).hex(), bytes(data[:8]).hex())
+    return False, ''
+
+
+def confirm_tables(values, native):
+    """kani counterexample (version index, level index) of the block-layout tables -> native structure run on that cell"""
+    v, l = values[0] % 40, values[1] % 4
+    rc_ = random.Random(v * 4 + l)
+    try:
+        dc = iso.data_codewords(v + 1, iso.LEVELS[l])
+    except Exception:
+        return False, 'bad cell', {}
+    for _ in range(3):
+        data = [rc_.randrange(1, 256) for _ in range(dc)]
+        ok, what = confirm_structure(native, v, l, data)
+        if ok:
+            return True, what, {'request': 'structure %s %d %d' % (OV.hexs(data), l, v)}
+    # the tables can also be wrong in a way structure() does not expose (e.g. max_bytes): look at a whole build
+    return False, 'kani counterexample (V%02d-%s) of the layout tables not reproduced through structure()' % (v + 1, iso.LEVELS[l]), {}
+
+
 def job_layout(job):
     v, l, mode, seed = job
     prog = worker_prog()
@@ -111,19 +143,16 @@ def job_layout(job):
     native = OV.Native(extra['native'])
     for lab, model in fails[:1]:
         model = model or {}
-        data = [model.get('d%d' % i, 0) for i in range(dc)]
-        ans = native.ask('structure %s %d %d' % (OV.hexs(data), l, v))
-        confirmed, what = False, 'not reproduced: %s' % lab
-        if ans.startswith('PANIC') or ans == 'ABORT':
-            confirmed, what = True, 'structure panics for V%02d-%s: %s' % (v + 1, level, ans[:80])
-        else:
-            nat = list(bytes.fromhex(ans))
-            ref = iso.interleave(v + 1, level, data)
-            if nat[:total] != ref or any(nat[total:]):
-                confirmed = True
-                idx = next((i for i in range(total) if nat[i] != ref[i]), total)
-                what = 'interleaved codeword stream of V%02d-%s differs from the ISO layout at codeword %d (got %s, expected %s); data %s...' % (
-                    v + 1, level, idx, bytes(nat[idx:idx + 4]).hex(), bytes(ref[idx:idx + 4]).hex(), bytes(data[:8]).hex())
+        rc_ = random.Random(seed + 5 * v + l)
+        # the solver's model first; structural obligations have no model, so also two seed-chosen data vectors
+        datas = [[model.get('d%d' % i, 0) for i in range(dc)], [rc_.randrange(256) for _ in range(dc)], [rc_.randrange(1, 256) for _ in range(dc)]]
+        confirmed, what, data = False, 'not reproduced: %s' % lab, datas[0]
+        for data in datas:
+            confirmed, what = confirm_structure(native, v, l, data)
+            if confirmed:
+                break
+        if not confirmed:
+            what = 'not reproduced: %s' % lab
         res['failures'].append({'key': 'C02/layout', 'what': what, 'confirmed': confirmed, 'obligation': lab,
                                 'replay': {'request': 'structure %s %d %d' % (OV.hexs(data), l, v)}})
     # vacuity witness: swapping two data bytes of the oracle order must be refutable
@@ -158,7 +187,7 @@ def main(argv):
     chk.rule = ('layout: one obligation per codeword of the interleaved stream per (version, level) cell with all data codewords symbolic; '
                 'syndromes: one per (block, i<ec); placement: one per data module per version; non-trivial = has free variables')
     chk.load()
-    chk.run_kani([{'harness': 'c02_block_layout_tables', 'key': 'C02/tables', 'confirm': None,
+    chk.run_kani([{'harness': 'c02_block_layout_tables', 'key': 'C02/tables', 'confirm': confirm_tables,
                    'symbolic': 'version index < 40, level index < 4 (all 160 cells)'}])
     native_path = chk.ov.native(chk.features)
     jobs = [(v, l, 'layout', chk.seed) for v in range(40) for l in range(4)]
